@@ -169,7 +169,7 @@ def run(tier):
             continue
         configs.append({"lib": lib, "zone": z, "start": y, "until": y + 1 + (per_start[lib] % 2), "interval": rng.choice([12, 22, 36])})
         per_start[lib] += 1
-    lattice = [(2000, 2010), (2005, 2020), (2010, 2011), (2020, 2037), (2001, 2002)]
+    lattice = [(2000, 2010), (2005, 2020), (2010, 2011), (2020, 2037), (2001, 2002), (2036, 2041), (2037, 2039), (2040, 2043)]     # ranges reaching past 2038 too: both libraries answer there
     n_lat = 40 if q else 2000
     for _ in range(n_lat):
         lib = rng.choice(["pytz", "dateutil"])
